@@ -34,12 +34,25 @@ func vfHexDigit(d rune) byte {
 }
 
 // vfQuote is the reference escaper. mode 0: named escapes for \a \b \f \n \r \t \v \\ and the active
-// quote, everything else raw. mode 1: every rune as \uXXXX.
+// quote, everything else raw. mode 1: every rune as \uXXXX. mode 2: \ooo, mode 3: \xHH (runes below U+0100).
 func vfQuote(s string, q byte, mode int) string {
 	out := []byte{q}
 	if mode == 1 {
 		for _, r := range s {
 			out = append(out, '\\', 'u', vfHexDigit((r>>12)&15), vfHexDigit((r>>8)&15), vfHexDigit((r>>4)&15), vfHexDigit(r&15))
+		}
+		return string(append(out, q))
+	}
+	if mode == 2 || mode == 3 {
+		// every rune below U+0100 as a three-digit octal escape (mode 2) or a two-digit \x escape (mode 3):
+		// both denote the code point
+		for _, r := range s {
+			vfAssume(r < 0x100)
+			if mode == 2 {
+				out = append(out, '\\', byte('0'+(r>>6)&7), byte('0'+(r>>3)&7), byte('0'+r&7))
+			} else {
+				out = append(out, '\\', 'x', vfHexDigit((r>>4)&15), vfHexDigit(r&15))
+			}
 		}
 		return string(append(out, q))
 	}
